@@ -122,7 +122,10 @@ class Prop(PropBase):
         kinds = ["pyint", "pyfloat", "npfloat64", "npfloat32", "npint64", "zerod", "nd", "list", "quantity", "phase", "imag"]
         for _ in range(700 if quick else 30000):
             op = rng.choice(ops)
-            c = {"op": "phase", "fn": op, "a": [hx(self._count(rng) * rng.choice([1, 1, 2**-30])), hx(rng.uniform(-0.5, 0.5))],
+            # (fractions of exactly +-1/2 and 0 included: a half-integer phase has two representations, and an operation must not
+            # re-wrap one into the other a whole cycle away)
+            c = {"op": "phase", "fn": op, "a": [hx(self._count(rng) * rng.choice([1, 1, 2**-30])),
+                                                hx(rng.uniform(-0.5, 0.5) if rng.random() < 0.7 else rng.choice([0.5, -0.5, 0.0, 0.5, -0.5, 0.25]))],
                  "imag_a": rng.random() < 0.2, "bkind": rng.choice(kinds)}
             if op in ("add", "radd", "sub", "rsub"):
                 c["bkind"] = rng.choice(["phase", "pyfloat", "pyint", "npfloat64", "nd", "quantity_cycle"])
